@@ -253,9 +253,26 @@ pub fn run(tier: Tier) -> i32 {
         }
     });
     st = st.merge(sc);
+    // (d) leaves with delimiter characters and escapes in them, in the contexts a leaf can stand in
+    {
+        let leaves = [
+            "'a\\`b'", "'\\`'", "'x\\\\`y'", "'it\\'s'", "'\\\\'", "'\\z'", "'`'", "'\"'", "'a\\\\\\'b'", "`\"a\\`b\"`", "`\"\\\\\"`", "`\"it's\"`", "`\"\\\"q\\\"\"`", "\"a b\"", "\"a\\\"b\"", "\"`\"", "\"'\"",
+            "`\"x\\\\\\`y\"`", "'\\\\`'", "'\\'\\`\\''",
+        ];
+        let mut sd = Stats::default();
+        for leaf in leaves {
+            for tpl in ["X", "[X]", "{a: X}.a", "a || X", "X == X", "X | @", "nokey | X", "[X, 'a']", "X == 'a'", "X == `\"a\"`", "[X][0]", "not_null(nokey, X)", "@.X"] {
+                let e = tpl.replace('X', leaf);
+                if rparse::parse(&e).is_ok() {
+                    with_pool(false, |pool| check_expr(&e, pool, "leaf-spellings", &mut sd));
+                }
+            }
+        }
+        st = st.merge(sd);
+    }
     rep.guard("some expressions yield non-null results", st.nontrivial > 100);
     rep.guard("more than 1000 expressions explored", st.states > 1000);
-    rep.rule = "(a) every sentence of the grammar over the core token alphabet up to the length bound (DFS over viable prefixes) and (b) every composed expression E1 = production(E0,E0), E2 = production(E1, E0|E1); each expression is searched on every document of the pool by the implementation and by the reference interpreter R-eval(R-parse(e), d). states = expressions, transitions = (expression, document) pairs; non-trivial = the expression has a non-null result on at least one document".into();
+    rep.rule = "(a) every sentence of the grammar over the core token alphabet up to the length bound (DFS over viable prefixes) and (b) every composed expression E1 = production(E0,E0), E2 = production(E1, E0|E1); each expression is searched on every document of the pool by the implementation and by the reference interpreter R-eval(R-parse(e), d). states = expressions, transitions = (expression, document) pairs; non-trivial = the expression has a non-null result on at least one document (d) 20 leaves with delimiter characters and escapes inside raw strings, literals and quoted identifiers x 13 contexts.".into();
     rep.bounds = json!({"sentence_len": l, "alphabet": alpha.texts, "documents": if full { pool_full().len() } else { pool_quick().len() }, "postfix_chain_len": clen, "postfix": POSTFIX, "bases": BASES, "E0": e0v, "unary": UNARY, "binary": BINARY, "E2": if full {"E1 x E0 and E0 x E1 for all binary productions on the full pool; E1 x E1 for | [?] [,] && on the core pool"} else {"E1 x E0 and E0 x E1 for binary productions"}, "thorough_pools": "sentences of the longest length and the longest postfix chains use the core pool, everything shorter the full pool"});
     rep.assumptions = vec![
         "reference semantics = DESIGN Appendix A, bound to the compliance fixtures at check start".into(),
